@@ -643,6 +643,16 @@ func (e *Engine) invoke(st *State, call ssa.CallInstruction, fv FuncV, args []Va
 			return nil, false
 		}
 	}
+	if e.OpaquePkgs != nil && fn.Pkg != nil && e.OpaquePkgs[fn.Pkg.Pkg.Path()] {
+		e.StubsUsed["opaque:"+fn.Pkg.Pkg.Path()]++
+		if !discard {
+			if call != nil && call.Value() != nil {
+				e.setResult(st, call, e.zero(call.Value().Type()))
+			}
+			e.advance(st)
+		}
+		return nil, false
+	}
 	if len(fn.Blocks) == 0 {
 		e.fail("no body and no intrinsic for %s (called from %s)", fn, st.top().fn)
 	}
